@@ -90,22 +90,23 @@ def handleInterop (args : List String) : String :=
     | _, _ => "bad-args"
   | _ => "bad-args"
 
-/-- `st <m>;<m>;...` with m = cb,cn,fb,fn,ptr,alen : the model's C struct fields and Fortran components -/
+/-- `st <m>;<m>;...` with m = cb,cn,fb,fn,ptr,dims (dims `-` or d1xd2x..) : the model's C struct fields and Fortran components -/
 def handleStruct (args : List String) : String :=
   match args with
   | [ms] =>
     let dec := fun (t : String) =>
-      match nats t "," with
-      | [cb, cn, fb, fn, ptr, alen] =>
-        match decCBase cb cn, decFBase fb fn with
-        | some c, some f => some (⟨c, f, ptr, alen⟩ : Member)
+      match t.splitOn "," with
+      | [cb, cn, fb, fn, ptr, dims] =>
+        match decCBase cb.toNat! cn.toNat!, decFBase fb.toNat! fn.toNat! with
+        | some c, some f => some (⟨c, f, ptr.toNat!, nats dims "x"⟩ : Member)
         | _, _ => none
       | _ => none
     match (if ms == "~" then some [] else allSome ((ms.splitOn ";").map dec)) with
     | none => "bad-member"
     | some mems =>
-      let cs := (structC mems).map (fun c => s!"{encCBase c.base}.{c.ptr}.{c.alen}")
-      let fs := (structF mems).map (fun f => s!"{encFBase f.base}.{f.alen}")
+      let encDims := fun (ds : List Nat) => if ds.isEmpty then "-" else "x".intercalate (ds.map toString)
+      let cs := (structC mems).map (fun c => s!"{encCBase c.base}.{c.ptr}.{encDims c.dims}")
+      let fs := (structF mems).map (fun f => s!"{encFBase f.base}.{encDims f.dims}")
       s!"C {" ".intercalate cs}#F {" ".intercalate fs}"
   | _ => "bad-args"
 
